@@ -149,6 +149,7 @@ class Sweeper:
         """`data`: explicit instruction bytes after the prefix (bit-vectors over any symbols); default is opcode + fresh symbols in0.."""
         c = Case(pre, opcode, selector)
         ia = self.ia
+        ia.ev.budget[0] = 50_000_000     # the evaluation budget bounds one case, not a worker's lifetime (value splitting multiplies cases)
         ADDR = addr if addr is not None else globals()['ADDR']
         if data is None:
             data = [BitVec.const(opcode)] + sym_bytes(MAXLEN - 1)
